@@ -284,3 +284,101 @@ func VF_C03_Counter() {
 		vf.Assert(n1 == n0+1 && seq1 == seq0+1, "C03/C15 exactly one operation with the next sequence number is queued")
 	}
 }
+
+// VF_C03_Positions: for EVERY int position (a symbolic 64-bit value, not a
+// small range) and a count from a small set, a positional call on a list of
+// three elements either addresses existing elements - then it succeeds - or is
+// refused with an error, never panics, changes nothing readable and queues
+// nothing.  The solver looks for positions where the validation arithmetic and
+// the plain rule 0 <= pos (&& pos+n <= size) disagree (wrap-around included).
+func VF_C03_Positions() {
+	which := vf.Choice("datatype", 2)
+	pos := int(vf.I64("pos"))
+	n := []int{1, 2, 3}[vf.Choice("count", 3)]
+	call := vf.Choice("call", 5)
+	vf.Tag("call", call)
+	vf.Tag("datatype", which)
+	const size = 3
+	var err error
+	var before, after interface{}
+	var n0, n1 int
+	valid := false
+	var panicked bool
+	var msg string
+	if which == 0 {
+		l := vfNewList()
+		_, e := l.InsertMany(0, "a", "b", "c")
+		vf.Assert(e == nil, "history")
+		before = append([]interface{}{}, listJSON(l)...)
+		n0, _ = pendingOps(l)
+		panicked, msg = vf.Try(func() {
+			switch call {
+			case 0:
+				valid = vf.All(pos >= 0, pos < size)
+				_, e := l.Get(pos)
+				err = toErr(e)
+			case 1:
+				valid = vf.All(pos >= 0, pos < size, pos <= size-n)
+				_, e := l.GetMany(pos, n)
+				err = toErr(e)
+			case 2:
+				valid = vf.All(pos >= 0, pos < size)
+				_, e := l.Update(pos, "u")
+				err = toErr(e)
+			case 3:
+				valid = vf.All(pos >= 0, pos < size, pos <= size-n)
+				_, e := l.DeleteMany(pos, n)
+				err = toErr(e)
+			case 4:
+				valid = vf.All(pos >= 0, pos <= size)
+				_, e := l.Insert(pos, "i")
+				err = toErr(e)
+			}
+		})
+		after = listJSON(l)
+		n1, _ = pendingOps(l)
+	} else {
+		d := vfNewDocSimple()
+		_, e := d.PutToObject("arr", []interface{}{"a", "b", "c"})
+		vf.Assert(e == nil, "history")
+		arr := child(d, "arr")
+		before = d.ToJSON()
+		n0, _ = pendingOps(d)
+		panicked, msg = vf.Try(func() {
+			switch call {
+			case 0:
+				valid = vf.All(pos >= 0, pos < size)
+				_, e := arr.GetFromArray(pos)
+				err = toErr(e)
+			case 1:
+				valid = vf.All(pos >= 0, pos < size, pos <= size-n)
+				_, e := arr.GetManyFromArray(pos, n)
+				err = toErr(e)
+			case 2:
+				valid = vf.All(pos >= 0, pos < size)
+				_, e := arr.UpdateManyInArray(pos, "u")
+				err = toErr(e)
+			case 3:
+				valid = vf.All(pos >= 0, pos < size, pos <= size-n)
+				_, e := arr.DeleteManyInArray(pos, n)
+				err = toErr(e)
+			case 4:
+				valid = vf.All(pos >= 0, pos <= size)
+				_, e := arr.InsertToArray(pos, "i")
+				err = toErr(e)
+			}
+		})
+		after = d.ToJSON()
+		n1, _ = pendingOps(d)
+	}
+	vf.Reach("called")
+	if panicked {
+		vf.Tag("panic", msg)
+	}
+	vf.Assert(!panicked, "C03 no panic for any position")
+	vf.Assert((err == nil) == valid, "C03 a positional call succeeds exactly when it addresses existing elements")
+	if !valid {
+		vf.Assert(jsonDeepEq(before, after), "C03 a refused call changes nothing readable")
+		vf.Assert(n1 == n0, "C03 a refused call queues nothing")
+	}
+}
